@@ -21,11 +21,13 @@ pub struct Certs {
 
 impl Certs {
     /// one run of the bundled generator: <dir>/server/{ca,localhost,localhost.key}.der and <dir>/client/…
-    pub fn generate(dir: &Path) -> Result<Certs> {
+    pub fn generate(dir: &Path) -> Result<Certs> { Certs::generate_with(dir, false) }
+    /// `no_expiry`: the generator's `--no-expiry` switch
+    pub fn generate_with(dir: &Path, no_expiry: bool) -> Result<Certs> {
         let _ = std::fs::remove_dir_all(dir);
         std::fs::create_dir_all(dir)?;
         // the generator prints to stdout; keep the harness's own stdout clean
-        let args = GenCertsArgs { server_out_path: dir.join("server"), client_out_path: dir.join("client"), no_expiry: false };
+        let args = GenCertsArgs { server_out_path: dir.join("server"), client_out_path: dir.join("client"), no_expiry };
         let gag = Gag::stdout();
         let r = GenCertsRunner::from(args).run();
         drop(gag);
